@@ -50,7 +50,14 @@ theorem revoke_success_recorded (s : St) (k : Nat) (byCert : Bool) (o1 o2 : List
   have hpre : ∀ st ∈ revokePre s k byCert, Keeps k t st := by
     intro st hst; rw [revokePre_kind s k byCert st hst]; trivial
   rcases revokeProg_revoked s k byCert o1 o2 t h with ⟨hl, hp⟩ | ⟨_, _, hp⟩
-  · rw [hp]; exact keeps_steps k t _ s hl hpre
+  · rw [hp]
+    apply keeps_steps k t _ s hl
+    intro st hst
+    rcases List.mem_append.mp hst with h | h
+    · exact hpre st h
+    · split at h
+      · simp at h
+      · exact rebuild_keeps _ _ _ _ _ _ st h
   · rw [hp, applySteps_append, applySteps_append]
     apply keeps_steps
     · simp [applySteps, applyStep, lookup_setAssoc_self]
@@ -59,16 +66,27 @@ theorem revoke_success_recorded (s : St) (k : Nat) (byCert : Bool) (o1 o2 : List
       · simp at hst
       · exact rebuild_keeps _ _ _ _ _ _ st hst
 
-/-- **revocation is idempotent**: revoking an already revoked (stored) certificate answers the FIRST
-revocation's stamp and writes nothing — whatever the orders and wherever it might be interrupted -/
+/-- **revocation is idempotent**: revoking an already revoked (stored) certificate answers the FIRST revocation's
+stamp and leaves the revocation store exactly as it was — whatever the orders and wherever the call is interrupted;
+since the repair of F5 it re-publishes the CRLs when auto-rebuild is off, and writes nothing at all when it is on -/
 theorem revoke_idempotent (s : St) (k : Nat) (c : Cert) (t : Nat) (byCert : Bool) (o1 o2 : List Nat) (cut : Option Nat)
     (hc : s.certs[k]? = some c) (hrev : s.revoked.lookup k = some t) (hs : k ∈ s.stored) :
-    answer s ⟨.revoke k byCert, o1, o2, cut⟩ = .revoked t ∧ exec s ⟨.revoke k byCert, o1, o2, cut⟩ = s := by
-  have hp : prog s o1 o2 (.revoke k byCert) = ([], .revoked t) := by
-    simp [prog, revokeProg, hc, hs, hrev, revokePre]
-  refine ⟨by simp [answer, hp], ?_⟩
-  simp only [exec, hp]
-  cases cut <;> simp [cutSteps, applySteps]
+    answer s ⟨.revoke k byCert, o1, o2, cut⟩ = .revoked t ∧
+    (exec s ⟨.revoke k byCert, o1, o2, cut⟩).revoked = s.revoked ∧
+    (s.cfg.autoRebuild = true → exec s ⟨.revoke k byCert, o1, o2, cut⟩ = s) := by
+  have hp : prog s o1 o2 (.revoke k byCert) =
+      (if s.cfg.autoRebuild then [] else rebuildSteps s false o1 o2, .revoked t) := by
+    simp only [prog, revokeProg, hc, hs, hrev, revokePre]
+    cases s.cfg.autoRebuild <;> simp [applySteps]
+  refine ⟨by simp [answer, hp], ?_, fun ha => ?_⟩
+  · simp only [exec, hp]
+    refine (frameRevoked_steps _ s (fun st hst => ?_)).1
+    have hst := cutSteps_sub _ _ st hst
+    split at hst
+    · simp at hst
+    · exact rebuild_frameRevoked _ _ _ _ st hst
+  · simp only [exec, hp, ha, ↓reduceIte]
+    cases cut <;> simp [cutSteps, applySteps]
 
 example : let s := run init [⟨.addIssuer, [1], [1], none⟩, ⟨.issue 1 3600, [], [], none⟩, ⟨.revoke 0 false, [1], [1], none⟩]
     s.certs[0]? = some ⟨1, 3700⟩ ∧ s.revoked.lookup 0 = some 1 ∧ 0 ∈ s.stored := by decide
@@ -92,18 +110,26 @@ theorem revoke_preserves_others (s : St) (k : Nat) (byCert : Bool) (o1 o2 : List
   · exact h
   · simp [isTidy] at h
 
-/-- **the served CRL lists the serial once revoke has returned** (auto-rebuild off, CRL enabled): when a revoke
-call records the revocation itself and answers success, the CRL served for the certificate's issuer in the very
-state the call leaves behind contains the serial — for every order in which the runtime writes the CRLs. -/
+/-- **the served CRL lists the serial once revoke has returned** (auto-rebuild off, CRL enabled): in EVERY state —
+whether this call records the revocation itself or finds it already recorded — when revoke answers success, the CRL
+served for the certificate's issuer in the very state the call leaves behind contains the serial, for every order in
+which the runtime writes the CRLs. -/
 theorem served_crl_lists_serial (s : St) (k : Nat) (c : Cert) (byCert : Bool) (o1 o2 : List Nat) (t : Nat)
-    (hc : s.certs[k]? = some c) (hnew : s.revoked.lookup k = none)
+    (hc : s.certs[k]? = some c)
     (hauto : s.cfg.autoRebuild = false) (hdis : s.cfg.disable = false)
     (hi : c.issuer ∈ s.issuers) (ho : c.issuer ∈ o1)
     (hans : answer s ⟨.revoke k byCert, o1, o2, none⟩ = .revoked t) :
     ∃ n ser, served (exec s ⟨.revoke k byCert, o1, o2, none⟩) c.issuer = some (n, ser) ∧ k ∈ ser := by
   simp only [answer, exec, prog, cutSteps] at hans ⊢
-  rcases revokeProg_revoked s k byCert o1 o2 t hans with ⟨hl, _⟩ | ⟨_, _, hp⟩
-  · rw [hnew] at hl; cases hl
+  rcases revokeProg_revoked s k byCert o1 o2 t hans with ⟨hl, hp⟩ | ⟨_, _, hp⟩
+  · obtain ⟨p1, p2, p3, p4⟩ := pre_state s k byCert
+    rw [hp, hauto, applySteps_append]
+    simp only [Bool.false_eq_true, ↓reduceIte]
+    rw [rebuild_serves _ false o1 o2 c.issuer (by rw [p2]; exact hi) ho (by rw [p3, hdis]; rfl)]
+    refine ⟨_, _, rfl, ?_⟩
+    rw [p3, hdis]
+    simp only [Bool.false_eq_true, ↓reduceIte]
+    exact mem_crlSerials _ ⟨k, c, t⟩ (by rw [p1]; exact hc) (by rw [p4]; exact hl) (by rw [p2]; exact hi)
   · obtain ⟨h1, h2, h3, h4⟩ := rec1_state s k t byCert
     rw [hp, hauto, applySteps_append]
     simp only [Bool.false_eq_true, ↓reduceIte]
@@ -196,133 +222,36 @@ example : let s := run init [⟨.addIssuer, [1], [1], none⟩, ⟨.issue 1 3600,
     (exec s ⟨.revoke 0 false, [1], [1], some 1⟩).revoked.lookup 0 = some 1 ∧
     served (exec s ⟨.revoke 0 false, [1], [1], some 1⟩) 1 = some (1, []) := by decide
 
-/-! ### storage failure inside a revocation, then a retry (finding F5) -/
+/-! ### storage failure or crash inside a revocation, then a retry (findings F5 / F16, repaired by e3ecbb3) -/
 
-/-- FULL statement (false on the current tree): whenever a revoke call answers success — also when it is the retry
-of an attempt that a storage failure interrupted after `j` writes — the served CRL lists the serial. -/
-def revoke_fault_retry_full : Prop :=
-  ∀ (s : St) (k : Nat) (c : Cert) (byCert : Bool) (o1 o2 o1' o2' : List Nat) (j t : Nat),
-    s.certs[k]? = some c → s.revoked.lookup k = none → s.cfg.autoRebuild = false → s.cfg.disable = false →
-    c.issuer ∈ s.issuers → c.issuer ∈ o1' →
-    answer (exec s ⟨.revoke k byCert, o1, o2, some j⟩) ⟨.revoke k byCert, o1', o2', none⟩ = .revoked t →
-    ∃ n ser, served (exec (exec s ⟨.revoke k byCert, o1, o2, some j⟩) ⟨.revoke k byCert, o1', o2', none⟩) c.issuer
-      = some (n, ser) ∧ k ∈ ser
-
-/-- **F5.**  One issuer, one certificate; the first revoke fails right after `revoked/<serial>` was written
-(`j = 1`: the write of the issuer's CRL failed); the retry takes the already-revoked branch, answers success
-with the recorded stamp and rebuilds nothing: the served CRL (number 1) is still empty. -/
-theorem revoke_fault_retry_cex : ¬ revoke_fault_retry_full := by
-  intro h
-  have := h (run init [⟨.addIssuer, [1], [1], none⟩, ⟨.issue 1 3600, [], [], none⟩]) 0 ⟨1, 3700⟩ false [1] [1] [1] [1] 1 1
-    (by decide) (by decide) (by decide) (by decide) (by decide) (by decide) (by decide)
-  obtain ⟨n, ser, h1, h2⟩ := this
-  have h3 : served (exec (exec (run init [⟨.addIssuer, [1], [1], none⟩, ⟨.issue 1 3600, [], [], none⟩])
-      ⟨.revoke 0 false, [1], [1], some 1⟩) ⟨.revoke 0 false, [1], [1], none⟩) 1 = some (1, []) := by decide
-  rw [h3] at h1
-  cases h1
-  cases h2
-
-/-- the same retry is fine for every failure position BEFORE the revocation record is written (nothing, or only
-the presented certificate, reached storage): the retry is then a fresh revoke and `served_crl_lists_serial` applies -/
-theorem revoke_fault_retry_partial (s : St) (k : Nat) (c : Cert) (byCert : Bool) (o1 o2 o1' o2' : List Nat) (j t : Nat)
-    (hc : s.certs[k]? = some c) (hnew : s.revoked.lookup k = none) (hauto : s.cfg.autoRebuild = false)
-    (hdis : s.cfg.disable = false) (hi : c.issuer ∈ s.issuers) (ho : c.issuer ∈ o1')
-    (hj : j ≤ (revokePre s k byCert).length)
+/-- **fault / crash, then retry.**  Interrupt a revoke after ANY number `j` of its writes — a storage failure that
+makes the call return an error, or a crash followed by a restart (a restart keeps the model state) — under any
+write orders; then retry.  Whenever the retry answers success (auto-rebuild off, CRL enabled, issuer present), the
+CRL served for the issuer in the state the retry leaves behind lists the serial.  This was false before the repair
+(`j = 1`: record written, CRL not; the retry answered success without rebuilding). -/
+theorem revoke_fault_retry (s : St) (k : Nat) (c : Cert) (byCert : Bool) (o1 o2 o1' o2' : List Nat) (j t : Nat)
+    (hc : s.certs[k]? = some c) (hauto : s.cfg.autoRebuild = false) (hdis : s.cfg.disable = false)
+    (hi : c.issuer ∈ s.issuers) (ho : c.issuer ∈ o1')
     (hans : answer (exec s ⟨.revoke k byCert, o1, o2, some j⟩) ⟨.revoke k byCert, o1', o2', none⟩ = .revoked t) :
     ∃ n ser, served (exec (exec s ⟨.revoke k byCert, o1, o2, some j⟩) ⟨.revoke k byCert, o1', o2', none⟩) c.issuer
       = some (n, ser) ∧ k ∈ ser := by
-  have hs1 : exec s ⟨.revoke k byCert, o1, o2, some j⟩ = s ∨
-      exec s ⟨.revoke k byCert, o1, o2, some j⟩ = applyStep s (.putCert k) := by
-    simp only [exec, prog, cutSteps]
-    have hpre : ∃ rest, (revokeProg s k byCert o1 o2).1 = revokePre s k byCert ++ rest := by
-      unfold revokeProg
-      rw [hc]
-      simp only [hnew]
-      split
-      · rename_i h1
-        refine ⟨[], ?_⟩
-        have : byCert = false := by cases byCert <;> simp_all
-        simp [revokePre, this]
-      · split
-        · rename_i h2
-          simp only [Bool.and_eq_true, Bool.not_eq_true', decide_eq_false_iff_not] at h2
-          exact absurd hi h2.2
-        · split
-          · exact ⟨[], by simp⟩
-          · split
-            · exact ⟨_, rfl⟩
-            · exact ⟨_, by rw [List.append_assoc]⟩
-    obtain ⟨rest, hp⟩ := hpre
-    rw [hp, List.take_append_of_le_length hj]
-    unfold revokePre at hj ⊢
-    split
-    · rename_i hb
-      have hj' : j = 0 ∨ j = 1 := by
-        have : j ≤ 1 := by simpa [hb] using hj
-        omega
-      rcases hj' with rfl | rfl
-      · left; rfl
-      · right; rfl
-    · left; simp [applySteps]
-  rcases hs1 with h | h
-  · rw [h] at hans ⊢
-    exact served_crl_lists_serial s k c byCert o1' o2' t hc hnew hauto hdis hi ho hans
-  · rw [h] at hans ⊢
-    exact served_crl_lists_serial _ k c byCert o1' o2' t (by simpa [applyStep] using hc)
-      (by simpa [applyStep] using hnew) (by simpa [applyStep] using hauto) (by simpa [applyStep] using hdis)
-      (by simpa [applyStep] using hi) ho hans
+  have hfr : (exec s ⟨.revoke k byCert, o1, o2, some j⟩).certs = s.certs ∧
+      (exec s ⟨.revoke k byCert, o1, o2, some j⟩).issuers = s.issuers ∧
+      (exec s ⟨.revoke k byCert, o1, o2, some j⟩).cfg = s.cfg :=
+    frameCI_steps _ s (fun st hst => revoke_frameCI s k byCert o1 o2 st (List.mem_of_mem_take hst))
+  obtain ⟨f1, f2, f3⟩ := hfr
+  exact served_crl_lists_serial _ k c byCert o1' o2' t (by rw [f1]; exact hc) (by rw [f3]; exact hauto)
+    (by rw [f3]; exact hdis) (by rw [f2]; exact hi) ho hans
 
-/-- non-vacuity of `revoke_fault_retry_partial`: revoke-by-certificate of a certificate the mount does not store,
-failing right after the certificate was stored (`j = 1 ≤ |pre|`) -/
-example : let s := run init [⟨.addIssuer, [1], [1], none⟩, ⟨.config none none (some true), [1], [1], none⟩, ⟨.craft 1, [], [], none⟩]
-    s.certs[0]? = some ⟨1, 0⟩ ∧ (revokePre s 0 true).length = 1 ∧
-    answer (exec s ⟨.revoke 0 true, [1], [1], some 1⟩) ⟨.revoke 0 true, [1], [1], none⟩ = .revoked 1 ∧
-    served (exec (exec s ⟨.revoke 0 true, [1], [1], some 1⟩) ⟨.revoke 0 true, [1], [1], none⟩) 1 = some (3, [0]) := by
+/-- non-vacuity, on the former F5 witness: the first revoke is cut right after `revoked/<serial>` was written; the
+retry answers success with the recorded stamp and now serves CRL 3 listing the serial -/
+example : let s := run init [⟨.addIssuer, [1], [1], none⟩, ⟨.issue 1 3600, [], [], none⟩]
+    s.certs[0]? = some ⟨1, 3700⟩ ∧ s.cfg.autoRebuild = false ∧ s.cfg.disable = false ∧ 1 ∈ s.issuers ∧
+    (exec s ⟨.revoke 0 false, [1], [1], some 1⟩).revoked.lookup 0 = some 1 ∧
+    served (exec s ⟨.revoke 0 false, [1], [1], some 1⟩) 1 = some (1, []) ∧
+    answer (exec s ⟨.revoke 0 false, [1], [1], some 1⟩) ⟨.revoke 0 false, [1], [1], none⟩ = .revoked 1 ∧
+    served (exec (exec s ⟨.revoke 0 false, [1], [1], some 1⟩) ⟨.revoke 0 false, [1], [1], none⟩) 1 = some (3, [0]) := by
   decide
-
-/-- **repair candidate for F5, proved safe in the model** (`revokeProgFixed`: the already-revoked branch rebuilds
-too when auto-rebuild is off).  In EVERY state — in particular whatever an interrupted earlier attempt left
-behind, for every failure position `j` — a revoke that answers success leaves the serial on the served CRL. -/
-theorem revoke_fault_retry_fixed (s : St) (k : Nat) (c : Cert) (byCert : Bool) (o1 o2 : List Nat) (t : Nat)
-    (hc : s.certs[k]? = some c) (hauto : s.cfg.autoRebuild = false) (hdis : s.cfg.disable = false)
-    (hi : c.issuer ∈ s.issuers) (ho : c.issuer ∈ o1)
-    (hans : (revokeProgFixed s k byCert o1 o2).2 = .revoked t) :
-    ∃ n ser, served (applySteps s (revokeProgFixed s k byCert o1 o2).1) c.issuer = some (n, ser) ∧ k ∈ ser := by
-  unfold revokeProgFixed at hans ⊢
-  rw [hc] at hans ⊢
-  simp only [hauto, Bool.false_eq_true, ↓reduceIte] at hans ⊢
-  split
-  · rename_i h1; simp [h1] at hans
-  · rename_i h1
-    simp only [h1, Bool.false_eq_true, ↓reduceIte] at hans
-    split
-    · rename_i h2; simp [h2] at hans
-    · rename_i h2
-      simp only [h2, Bool.false_eq_true, ↓reduceIte] at hans
-      cases hl : s.revoked.lookup k with
-      | some t' =>
-        simp only [hl] at hans ⊢
-        obtain ⟨p1, p2, p3, p4⟩ := pre_state s k byCert
-        rw [applySteps_append, rebuild_serves _ false o1 o2 c.issuer (by rw [p2]; exact hi) ho (by rw [p3, hdis]; rfl)]
-        refine ⟨_, _, rfl, ?_⟩
-        rw [p3, hdis]
-        simp only [Bool.false_eq_true, ↓reduceIte]
-        exact mem_crlSerials _ ⟨k, c, t'⟩ (by rw [p1]; exact hc) (by rw [p4]; exact hl) (by rw [p2]; exact hi)
-      | none =>
-        simp only [hl] at hans ⊢
-        split
-        · rename_i h3; simp [h3] at hans
-        · obtain ⟨p1, p2, p3, p4⟩ := rec1_state s k (s.stamps + 1) byCert
-          rw [applySteps_append, rebuild_serves _ false o1 o2 c.issuer (by rw [p2]; exact hi) ho (by rw [p3, hdis]; rfl)]
-          refine ⟨_, _, rfl, ?_⟩
-          rw [p3, hdis]
-          simp only [Bool.false_eq_true, ↓reduceIte]
-          exact mem_crlSerials _ ⟨k, c, s.stamps + 1⟩ (by rw [p1]; exact hc) p4 (by rw [p2]; exact hi)
-
-/-- the repaired program on the F5 witness: the retry now lists the serial -/
-example : let s := exec (run init [⟨.addIssuer, [1], [1], none⟩, ⟨.issue 1 3600, [], [], none⟩]) ⟨.revoke 0 false, [1], [1], some 1⟩
-    (revokeProgFixed s 0 false [1] [1]).2 = .revoked 1 ∧
-    served (applySteps s (revokeProgFixed s 0 false [1] [1]).1) 1 = some (3, [0]) := by decide
 
 /-! ### CRL numbers -/
 
